@@ -39,12 +39,15 @@ func c01RunCase(c *Case) (string, []Fail) {
 		return c01TraceCase(c.Z)
 	case 3:
 		return c01StopCaseRun(c.Z)
+	case 4:
+		return c01SpillCaseRun(c.Z)
 	}
 	return "badcase", nil
 }
 
 func c01Gen_(g *Gen) {
-	c01GenStopCases(g) // kind 3: graceful stop with open connections (c01_stop.go)
+	c01GenStopCases(g)  // kind 3: graceful stop with open connections (c01_stop.go)
+	c01GenSpillCases(g) // kind 4: histories of repeated spilling under a small disk limit (c01_spill.go)
 	n := g.Pick(30, 400)
 	for i := 0; i < n; i++ {
 		sc := c01GenScenario(g.R, g.Thorough(), "")
